@@ -2,10 +2,11 @@
 // SPDX-License-Identifier: Apache-2.0
 // Copyright (c) A5 contributors
 
-use crate::coordinate_systems::{Face, LonLat};
+use crate::coordinate_systems::{Cartesian, Face, LonLat};
 use crate::core::constants::PI_OVER_5;
 use crate::core::coordinate_transforms::{
-    face_to_ij, from_lon_lat, normalize_longitudes, to_lon_lat, to_polar,
+    face_to_ij, from_lon_lat, normalize_longitudes, to_cartesian, to_lon_lat, to_polar,
+    to_spherical,
 };
 use crate::core::hilbert::{ij_to_s, s_to_anchor};
 use crate::core::origin::{find_nearest_origin, quintant_to_segment, segment_to_quintant};
@@ -38,13 +39,28 @@ pub fn lonlat_to_cell(lonlat: LonLat, resolution: i32) -> Result<u64, String> {
     let n = 25;
     let scale = 50.0 / 2.0_f64.powi(hilbert_resolution);
 
+    // Lay the probe spiral out in the tangent plane of the sphere, so that it is not
+    // squeezed along longitude near the poles
+    let center = to_cartesian(from_lon_lat(lonlat));
+    let (cx, cy, cz) = (center.x(), center.y(), center.z());
+    // Any unit vector perpendicular to center, and the one completing the basis
+    let (ex, ey, ez) = if cz.abs() < 0.9 {
+        let l = (cx * cx + cy * cy).sqrt();
+        (-cy / l, cx / l, 0.0)
+    } else {
+        let l = (cy * cy + cz * cz).sqrt();
+        (0.0, -cz / l, cy / l)
+    };
+    let (nx, ny, nz) = (cy * ez - cz * ey, cz * ex - cx * ez, cx * ey - cy * ex);
     for i in 0..n {
-        let r = (i as f64 / n as f64) * scale;
-        let coordinate = LonLat::new(
-            lonlat.longitude() + (i as f64).cos() * r,
-            lonlat.latitude() + (i as f64).sin() * r,
+        let r = ((i as f64 / n as f64) * scale).to_radians();
+        let (a, b) = ((i as f64).cos() * r, (i as f64).sin() * r);
+        let point = Cartesian::new(
+            cx + a * ex + b * nx,
+            cy + a * ey + b * ny,
+            cz + a * ez + b * nz,
         );
-        samples.push(coordinate);
+        samples.push(to_lon_lat(to_spherical(point)));
     }
 
     // Deduplicate estimates
